@@ -324,7 +324,7 @@ impl Family for ConcFam {
             proptest::collection::vec(0u8..3, 0..40),
             any::<u64>(),
         )
-            .prop_map(|(streams, c2s, s2c, yields, draw_seed)| c01::PipeCase { scheme: c01::SchemeSel::Default, streams, c2s, s2c, yields, draw_seed })
+            .prop_map(|(streams, c2s, s2c, yields, draw_seed)| c01::PipeCase { scheme: c01::SchemeSel::Default, streams, c2s, s2c, yields, draw_seed, end_by_close: false, late_readers: false })
             .boxed()
     }
     fn run(&self, case: &c01::PipeCase, _cx: &CaseCtx) -> CaseResult {
